@@ -38,6 +38,11 @@ pub struct Case {
     /// its own floor(rate/50) samples
     #[serde(default)]
     pub sound_off: Option<(u8, u8)>,
+    /// the program and CPU state reach the machine as an SZX snapshot (frame position = the start
+    /// position) loaded by the host at a frame boundary with an empty audio queue, instead of being
+    /// poked in: the frames that follow must sound as the program says from the first one on
+    #[serde(default)]
+    pub via_szx: bool,
 }
 
 const BASE: u16 = 0x8000;
@@ -110,6 +115,29 @@ pub fn check(c: &Case, rec: &mut Rec) -> Result<(), String> {
     let start_t = (c.start_t % 64) as u64;
     e.verif_set_frame_clocks(start_t as usize);
     while e.next_audio_sample().is_some() {}
+    if c.via_szx {
+        use crate::formats::szx;
+        e.verif_set_frame_clocks(0);
+        let is128 = machine == Machine::K128;
+        let st = szx::SzxState {
+            machine_id: if is128 { 2 } else { 1 },
+            regs: regs.clone(),
+            memptr: 0,
+            cycles: start_t as u32,
+            halted: false,
+            ei_last: false,
+            f_set: false,
+            border: 0,
+            latch: 0,
+            fe: 0,
+            ay: None,
+            kempston_joystick: Some(false),
+            mouse: None,
+        };
+        let file = szx::write(&st, &mem.ram, &szx::Layout::default());
+        e.load_snapshot(rustzx_core::host::Snapshot::Szx(crate::host::MemAsset::new(file))).map_err(|x| format!("load_snapshot(SZX): {:?}", x))?;
+        rec.class("state-delivered-as-an-szx-snapshot");
+    }
     let mut m = RefMachine::new(mem);
     set_ref(&mut m.cpu, &CpuState { regs, memptr: 0, q_is_f: false, halted: false, no_int: false });
     m.bus.t = start_t;
@@ -340,7 +368,8 @@ pub fn case_strategy() -> impl Strategy<Value = Case> {
             } else {
                 None
             };
-            Case { machine, rate, volume, beeper, ay, segs, idle_units, frames, drain, start_t, reassert_settings_before_frame, sound_off }
+            let via_szx = (start_t >> 20) % 3 == 0;
+            Case { machine, rate, volume, beeper, ay, segs, idle_units, frames, drain, start_t, reassert_settings_before_frame, sound_off, via_szx }
         })
 }
 
@@ -357,7 +386,7 @@ pub fn replay(run: &mut Run, phase: &str, case: &serde_json::Value) -> Result<()
 }
 
 pub const LEVEL: &str = "exploration";
-pub const RULE: &str = "case = machine x sample rate 8000..384000 (biased to 8000, 11025, 44100, 48000, 384000 and rates not divisible by 50) x volume 0..100 x beeper/AY enables x looping DI program of 0..30 (delay, OUT (0xFE),A with any value) segments incl. bursts faster than one sample and frames without any write x 1..6 frames x drain behaviour {all, never, part}; a third of the machines are created with sound generation off and have it switched on before the first frame; in a third of the cases the host re-asserts its current settings (set_ay_enabled / set_sound / set_fast_load with the values in force) before one of the frames, which must not change the sound; in a quarter of the runs of three or more frames the host switches sound off before one frame and on again before a later one (what is delivered in between is not judged; afterwards every frame must again deliver exactly its own samples). Drain-all: every frame must deliver floor(rate/50) samples exactly; with only the beeper on, every sample must equal the level of a speaker/MIC state that was current within one sample period of its frame time k*T_frame/floor(rate/50) — the states and their times come from the reference machine's ULA write log, the four levels from calibration runs at the same settings; levels monotone in EAR then MIC, left = right, level at volume v = level at volume 100 * v/100, volume 0 exactly silent, everything finite. Never/partial drain: the queue stays below two frames' worth. non-trivial = judged run with >= 2 speaker writes at least two samples apart at a rate other than 44100 (or any never/partial-drain run); distinct = hash of the case";
+pub const RULE: &str = "case = machine x sample rate 8000..384000 (biased to 8000, 11025, 44100, 48000, 384000 and rates not divisible by 50) x volume 0..100 x beeper/AY enables x looping DI program of 0..30 (delay, OUT (0xFE),A with any value) segments incl. bursts faster than one sample and frames without any write x 1..6 frames x drain behaviour {all, never, part}; a third of the machines are created with sound generation off and have it switched on before the first frame; in a third of the cases the host re-asserts its current settings (set_ay_enabled / set_sound / set_fast_load with the values in force) before one of the frames, which must not change the sound; in a third of the cases the program and CPU state are delivered as an SZX snapshot loaded at a frame boundary (audio queue empty) instead of being poked in; in a quarter of the runs of three or more frames the host switches sound off before one frame and on again before a later one (what is delivered in between is not judged; afterwards every frame must again deliver exactly its own samples). Drain-all: every frame must deliver floor(rate/50) samples exactly; with only the beeper on, every sample must equal the level of a speaker/MIC state that was current within one sample period of its frame time k*T_frame/floor(rate/50) — the states and their times come from the reference machine's ULA write log, the four levels from calibration runs at the same settings; levels monotone in EAR then MIC, left = right, level at volume v = level at volume 100 * v/100, volume 0 exactly silent, everything finite. Never/partial drain: the queue stays below two frames' worth. non-trivial = judged run with >= 2 speaker writes at least two samples apart at a rate other than 44100 (or any never/partial-drain run); distinct = hash of the case";
 pub const ASSUMPTIONS: &[&str] = &[
     "write timestamps from the reference machine (trusted through calibration, C03, C04)",
     "the absolute level constants are not assumed: they are measured on a calibration machine with the same settings",
